@@ -137,6 +137,10 @@ pub enum Tags {
     Pair,
     /// `</block> <block …>` in one comment: closes the current block and opens a sibling.
     CloseOpen,
+    /// `<block …> <block …>` in one comment: a parent and its first child start together.
+    OpenOpen,
+    /// `</block> </block>` in one comment.
+    CloseClose,
 }
 
 /// Where the tag text sits inside the comment.
@@ -150,6 +154,8 @@ pub enum Layout {
     Multi(u8),
     /// One line, the comment is indented by two spaces.
     Indented,
+    /// One line, and the next segment continues on the same line (block forms only).
+    SameLine,
 }
 
 #[derive(Clone, Copy, Debug, PartialEq, Eq, Hash)]
@@ -269,12 +275,17 @@ impl<'k> Renderer<'k> {
                     (_, Layout::Multi(_)) => false,
                     (FormKind::Md, Layout::Indented) => false,
                     (_, Layout::Indented) => kit.indent_ok,
+                    (FormKind::Block, Layout::SameLine) => !kit.blank_between,
+                    (_, Layout::SameLine) => false,
                 };
                 let family_ok = || cross_family || open_families.last() == Some(&f.family);
+                let two_ok = || cross_family || (depth >= 2 && open_families[depth - 2] == f.family);
                 let tags_ok = match tags {
                     Tags::None | Tags::Pair => true,
                     Tags::Open => depth < max_depth,
+                    Tags::OpenOpen => depth + 2 <= max_depth,
                     Tags::Close | Tags::CloseOpen => depth > 0 && family_ok(),
+                    Tags::CloseClose => depth >= 2 && family_ok() && two_ok(),
                 };
                 layout_ok && tags_ok
             }
@@ -295,6 +306,14 @@ impl<'k> Renderer<'k> {
                     Tags::CloseOpen => {
                         stack.pop();
                         stack.push(family);
+                    }
+                    Tags::OpenOpen => {
+                        stack.push(family);
+                        stack.push(family);
+                    }
+                    Tags::CloseClose => {
+                        stack.pop();
+                        stack.pop();
                     }
                     _ => {}
                 }
@@ -343,6 +362,26 @@ impl<'k> Renderer<'k> {
                 let (n, lt, gt) = self.start_tag(quote);
                 pending.push((true, lt, gt - lt + 1));
                 opened.push((n, lt, gt));
+            }
+            Tags::OpenOpen => {
+                for i in 0..2 {
+                    if i > 0 {
+                        self.out.text.push(' ');
+                    }
+                    let (n, lt, gt) = self.start_tag(quote);
+                    pending.push((true, lt, gt - lt + 1));
+                    opened.push((n, lt, gt));
+                }
+            }
+            Tags::CloseClose => {
+                for i in 0..2 {
+                    if i > 0 {
+                        self.out.text.push(' ');
+                    }
+                    pending.push((false, self.out.text.len(), 8));
+                    self.out.text.push_str("</block>");
+                    *closed += 1;
+                }
             }
         }
     }
@@ -422,6 +461,8 @@ impl<'k> Renderer<'k> {
         let events: Vec<Tags> = match tags {
             Tags::Pair => vec![Tags::Open, Tags::Close],
             Tags::CloseOpen => vec![Tags::Close, Tags::Open],
+            Tags::OpenOpen => vec![Tags::Open, Tags::Open],
+            Tags::CloseClose => vec![Tags::Close, Tags::Close],
             t => vec![t],
         };
         let mut opened_iter = opened.into_iter();
@@ -446,7 +487,11 @@ impl<'k> Renderer<'k> {
             }
         }
         let _ = closed;
-        self.end_segment();
+        if layout == Layout::SameLine {
+            self.out.text.push(' ');
+        } else {
+            self.end_segment();
+        }
     }
 
     pub fn seg(&mut self, seg: &Seg) {
@@ -496,12 +541,16 @@ pub fn alphabet(kit: &Kit, rich: bool) -> Vec<Seg> {
         if kit.indent_ok && f.kind != FormKind::Md {
             layouts.push(Layout::Indented);
         }
+        if f.kind == FormKind::Block && !kit.blank_between {
+            layouts.push(Layout::SameLine);
+        }
         for layout in layouts {
             let tag_kinds: &[Tags] = match layout {
-                Layout::Bare => &[Tags::None, Tags::Open, Tags::Close, Tags::Pair, Tags::CloseOpen],
+                Layout::Bare => &[Tags::None, Tags::Open, Tags::Close, Tags::Pair, Tags::CloseOpen, Tags::OpenOpen, Tags::CloseClose],
                 Layout::Noisy => &[Tags::Open, Tags::Close, Tags::Pair],
                 Layout::Multi(_) => if rich { &[Tags::Open, Tags::Close, Tags::Pair] } else { &[Tags::Open, Tags::Close] },
                 Layout::Indented => &[Tags::Open, Tags::Close],
+                Layout::SameLine => &[Tags::Open, Tags::Close, Tags::None],
             };
             for &tags in tag_kinds {
                 v.push(Seg::Comment { form: fi as u8, layout, tags });
@@ -530,6 +579,7 @@ pub fn seg_from_json(v: &Value) -> Option<Seg> {
         "Bare" => Layout::Bare,
         "Noisy" => Layout::Noisy,
         "Indented" => Layout::Indented,
+        "SameLine" => Layout::SameLine,
         "Multi(0)" => Layout::Multi(0),
         "Multi(1)" => Layout::Multi(1),
         "Multi(2)" => Layout::Multi(2),
@@ -541,6 +591,8 @@ pub fn seg_from_json(v: &Value) -> Option<Seg> {
         "Close" => Tags::Close,
         "Pair" => Tags::Pair,
         "CloseOpen" => Tags::CloseOpen,
+        "OpenOpen" => Tags::OpenOpen,
+        "CloseClose" => Tags::CloseClose,
         _ => return None,
     };
     Some(Seg::Comment { form: v.get("form")?.as_u64()? as u8, layout, tags })
